@@ -329,6 +329,7 @@ Section AstSem.
       | SFor pre c post body =>
           match (match pre with OSnone => RNormal m | OSsome s1 => exec n' false s1 m end) with
           | RNormal m1 => exec_loop n' c post body m1
+          | RBreak _ | RContinue _ => RWrong          (* init is a simple statement *)
           | other => other
           end
       | SWhile c body => exec_loop n' (OEsome c) OSnone body m
@@ -406,6 +407,7 @@ Section AstSem.
       | RNormal m2 | RContinue m2 =>
           match (match post with OSnone => RNormal m2 | OSsome s1 => exec n' false s1 m2 end) with
           | RNormal m3 => exec_loop n' c post body m3
+          | RBreak _ | RContinue _ => RWrong          (* the increment is a simple statement *)
           | other => other
           end
       | RBreak m2 => RNormal m2
